@@ -55,6 +55,12 @@ def work(task):
             gen = lambda b=None: verify.gen_lemma(LEMMAS[key], prop, bounded=b)
         else:
             gen = lambda b=None: verify.gen_function(CONTRACTS[key], prop, bounded=b)
+        if kind == "function" and CONTRACTS[key].opts.get("native_only"):
+            # outside the symbolic subset: the executable contract is only run on the real code (bounded stand-in)
+            out["search"] = replay.search(CONTRACTS[key], opts.get("seed", 0), max(opts.get("native_tries", 0), 2000))
+            out["native_only"] = True
+            out["wall_s"] = round(time.time() - t0, 3)
+            return out
         rep = gen()
         out.update(sha=rep.sha, file=rep.file, inlined=[list(x) for x in rep.inlined], callees=rep.callees,
                    externals=rep.externals, paths=rep.paths, undecided=list(rep.undecided))
@@ -237,7 +243,8 @@ def report(prop, tier, seed, mod, results, extra, bounded, t0, a, srcroot):
         for u in r["undecided"]:
             undecided.append({"function": r["key"], "reason": u})
         if not any(f["key"] == r["key"] for f in funcs):
-            funcs.append({"key": r["key"], "kind": r["kind"], "sha256": r["sha"], "file": r["file"], "paths": r["paths"]})
+            funcs.append({"key": r["key"], "kind": r["kind"] if not r.get("native_only") else "native-contract-only (bounded)",
+                          "sha256": r["sha"], "file": r["file"], "paths": r["paths"]})
         for e in r["externals"]:
             trusted.add("assumed contract: " + e)
         for k, sha in r["inlined"]:
